@@ -262,6 +262,12 @@ func (r *Runtime) builtinJSON_stringify(call FunctionCall) Value {
 				} else {
 					ctx.gap = str
 				}
+				for i := 0; i < len(ctx.gap); i++ {
+					if ctx.gap[i] >= utf8.RuneSelf {
+						ctx.allAscii = false
+						break
+					}
+				}
 			}
 		}
 	}
